@@ -131,7 +131,7 @@ class Harness(object):
             for (off, fid, _n) in fields:
                 v = self.sym(I, root, fid, argi, name, base + off, through_ptr, overrides, depth + 1, root_ty)
                 self._put(out, off, fid, v)
-            if is_mask and self._has_simd_field(t):
+            if is_mask and (self._has_simd_field(t) or all(self.F.types[fid].get('k') == 'int' and self.F.types[fid]['sz'] == 4 for (_o, fid, _n) in fields)):
                 # SIMD masks are canonical by construction (R-WHO): every lane is all-ones or zero.
                 for off, (s, a) in list(out.cells.items()):
                     if a.op == 'atom':
